@@ -92,17 +92,24 @@ func (w *Worker) RunCloneCase(f1 int, fields []schemaField, property string, tho
 	populate := func(m *sx.Machine, parent *sx.Value, f schemaField, shape int, label string) []*sx.Value {
 		ps := (*parent).(sx.Struct)
 		var kids []*sx.Value
+		zero := label == ""
+		title := func(t string) string {
+			if zero {
+				return "" // a zero-valued (empty) subschema
+			}
+			return t
+		}
 		switch f.kind {
 		case "ptr":
 			if shape >= 1 {
-				k := newSchema(label)
+				k := newSchema(title(label))
 				ps[f.idx] = k
 				kids = append(kids, k)
 			}
 		case "slice":
 			lst := []sx.Value{}
 			for i := 0; i < shape; i++ {
-				k := newSchema(fmt.Sprintf("%s[%d]", label, i))
+				k := newSchema(title(fmt.Sprintf("%s[%d]", label, i)))
 				lst = append(lst, k)
 				kids = append(kids, k)
 			}
@@ -110,7 +117,7 @@ func (w *Worker) RunCloneCase(f1 int, fields []schemaField, property string, tho
 		case "map":
 			om := sx.NewOMap(types.Typ[types.String])
 			for i := 0; i < shape; i++ {
-				k := newSchema(fmt.Sprintf("%s{k%d}", label, i))
+				k := newSchema(title(fmt.Sprintf("%s{k%d}", label, i)))
 				om.Set(m, fmt.Sprintf("k%d", i), k)
 				kids = append(kids, k)
 			}
@@ -147,7 +154,7 @@ func (w *Worker) RunCloneCase(f1 int, fields []schemaField, property string, tho
 		rs[enumIdx] = []sx.Value{sx.Iface{T: types.Typ[types.Float64], V: 1.0}}
 		kids := populate(m, root, fields[sh.F1], sh.S1, fields[sh.F1].name)
 		if sh.F2 >= 0 {
-			populate(m, root, fields[sh.F2], sh.S2, fields[sh.F2].name)
+			populate(m, root, fields[sh.F2], sh.S2, "") // the second field holds empty (zero-valued) subschemas
 		}
 		if len(kids) > 0 && (thorough || sh.F2 < 0) {
 			n := m.ChooseN(len(fields)+1, "clone-nested") - 1
@@ -336,6 +343,13 @@ func nativeCloneCheck(sh cloneShape, fields []schemaField) (bad bool, detail str
 	populate := func(parent *jsonschema.Schema, f schemaField, shape int, label string) []*jsonschema.Schema {
 		fv := reflect.ValueOf(parent).Elem().FieldByName(f.name)
 		var kids []*jsonschema.Schema
+		zero := label == ""
+		mk := func(t string) *jsonschema.Schema {
+			if zero {
+				return &jsonschema.Schema{}
+			}
+			return &jsonschema.Schema{Title: t}
+		}
 		switch f.kind {
 		case "ptr":
 			if shape >= 1 {
@@ -367,7 +381,7 @@ func nativeCloneCheck(sh cloneShape, fields []schemaField) (bad bool, detail str
 	root.Enum = []any{1.0}
 	kids := populate(root, fields[sh.F1], sh.S1, fields[sh.F1].name)
 	if sh.F2 >= 0 {
-		populate(root, fields[sh.F2], sh.S2, fields[sh.F2].name)
+		populate(root, fields[sh.F2], sh.S2, "")
 	}
 	if sh.Nested >= 0 && len(kids) > 0 {
 		populate(kids[0], fields[sh.Nested], 1, "nested."+fields[sh.Nested].name)
